@@ -349,6 +349,7 @@ func loopRule(p *load.Program, s *oblig.Set) {
 		counts    []string
 		end       string
 		err1      bool
+		lineEmpty bool
 	}
 	var all []res
 	o := &absint.Oracle{}
@@ -374,6 +375,20 @@ func loopRule(p *load.Program, s *oblig.Set) {
 				return &absint.Tuple{E: []absint.Val{absint.MkString(""), &absint.Iface{T: types.NewPointer(types.Typ[types.Int]), V: &absint.Ptr{Cell: ec}}}}, true
 			}
 			return nil, false
+		}
+		// whether the line that came with the error is empty is one choice per
+		// path, however the code spells the test
+		lineEmpty := -1
+		in.Hooks.Branch = func(in *absint.Interp, cond absint.Val, site ssa.Instruction) (bool, bool) {
+			isTest, saysEmpty := emptinessTest(absint.Key(cond), "LINE1")
+			if !isTest {
+				return false, false
+			}
+			if lineEmpty < 0 {
+				lineEmpty = in.Oracle.Choose(2, "LINE1 is empty")
+			}
+			r.lineEmpty = lineEmpty == 1
+			return saysEmpty == (lineEmpty == 1), true
 		}
 		in.Hooks.Call = func(in *absint.Interp, callee *ssa.Function, args []absint.Val, site ssa.Instruction) (absint.Val, bool) {
 			switch {
@@ -429,10 +444,10 @@ func loopRule(p *load.Program, s *oblig.Set) {
 		// the statement is complete: every balance test says so
 		complete := true
 		nonEmpty := true
+		if r.lineEmpty {
+			nonEmpty = false
+		}
 		for _, c := range r.conds {
-			if strings.HasPrefix(c, "==(LINE1,\"\") := true") || strings.HasPrefix(c, "!=(LINE1,\"\") := false") {
-				nonEmpty = false
-			}
 			if strings.Contains(c, "count(") && (strings.HasPrefix(c, "==(") && strings.HasSuffix(c, ":= false") || strings.HasPrefix(c, "!=(") && strings.HasSuffix(c, ":= true")) {
 				complete = false
 			}
@@ -718,4 +733,17 @@ func segField(v ssa.Value) string {
 		return n
 	}
 	return ""
+}
+
+// emptinessTest recognises the spellings of "string v is empty" / "is not
+// empty": comparisons of v with "" and of len(v) with 0 or 1.
+func emptinessTest(key, v string) (isTest bool, saysEmpty bool) {
+	l := "len(" + v + ")"
+	switch key {
+	case "==(" + v + ",\"\")", "==(\"\"," + v + ")", "==(" + l + ",0)", "==(0," + l + ")", "<(" + l + ",1)", "<=(" + l + ",0)", ">(1," + l + ")", ">=(0," + l + ")":
+		return true, true
+	case "!=(" + v + ",\"\")", "!=(\"\"," + v + ")", "!=(" + l + ",0)", "!=(0," + l + ")", ">=(" + l + ",1)", ">(" + l + ",0)", "<=(1," + l + ")", "<(0," + l + ")":
+		return true, false
+	}
+	return false, false
 }
